@@ -42,12 +42,15 @@ import (
 	"time"
 
 	"github.com/gorilla/websocket"
+	"github.com/pion/interceptor"
+	"github.com/pion/rtcp"
 	"github.com/pion/rtp"
 	"github.com/pion/sdp/v3"
 	"github.com/pion/webrtc/v4"
 
 	"github.com/jech/galene/diskwriter"
 	"github.com/jech/galene/group"
+	"github.com/jech/galene/packetcache"
 	"github.com/jech/galene/token"
 	"github.com/jech/galene/verifhook"
 	"github.com/jech/galene/webserver"
@@ -65,15 +68,57 @@ func serve() {
 	webserver.StaticRoot = filepath.Join(root, "static")
 	webserver.Insecure = true
 	token.SetStatefulFilename(filepath.Join(root, "data", "var", "tokens.jsonl"))
-	if at := os.Getenv("VERIF_CRASH_AT"); at != "" {
-		n := int32(vt.EnvInt("VERIF_CRASH_N", 1))
-		var cnt atomic.Int32
-		verifhook.Set(func(point string, args ...any) {
-			if point == at && cnt.Add(1) == n {
-				os.Exit(3)
-			}
-		})
+	at := os.Getenv("VERIF_CRASH_AT")
+	n := int32(vt.EnvInt("VERIF_CRASH_N", 1))
+	var cnt atomic.Int32
+	var hmu sync.Mutex
+	var hlog *os.File
+	if p := os.Getenv("VERIF_HOOKLOG"); p != "" {
+		hlog, _ = os.OpenFile(p, os.O_CREATE|os.O_WRONLY|os.O_APPEND, 0600)
 	}
+	verifhook.Set(func(point string, args ...any) {
+		if at != "" && point == at && cnt.Add(1) == n {
+			os.Exit(3)
+		}
+		// C06 at the linearisation point: what the cache holds at the instant a NACK goes upstream
+		if hlog != nil && (point == "rtpconn.sendNACK" || point == "rtpconn.sendNACKs") && len(args) >= 2 {
+			cache, _ := args[0].(*packetcache.Cache)
+			if cache == nil {
+				return
+			}
+			seqs := []uint16{}
+			if point == "rtpconn.sendNACKs" {
+				l, _ := args[1].([]uint16)
+				seqs = append(seqs, l...)
+			} else if len(args) >= 3 {
+				first, _ := args[1].(uint16)
+				bitmap, _ := args[2].(uint16)
+				seqs = append(seqs, first)
+				for i := 0; i < 16; i++ {
+					if bitmap&(1<<i) != 0 {
+						seqs = append(seqs, first+uint16(i)+1)
+					}
+				}
+			}
+			last, ok := cache.Last()
+			out := [][]int{}
+			for _, sq := range seqs {
+				in := 0
+				if cache.Get(sq, nil) > 0 {
+					in = 1
+				}
+				beyond := 0
+				if ok && ((sq-last)&0x8000) == 0 {
+					beyond = 1
+				}
+				out = append(out, []int{int(sq), in, beyond})
+			}
+			b, _ := json.Marshal(map[string]any{"point": point, "seqs": out, "last": int(last)})
+			hmu.Lock()
+			hlog.Write(append(b, '\n'))
+			hmu.Unlock()
+		}
+	})
 	go group.Update()
 	err := webserver.Serve("127.0.0.1:"+os.Getenv("VERIF_PORT"), group.DataDirectory)
 	if err != nil {
@@ -111,6 +156,8 @@ func (s *server) start() error {
 	if s.crash != "" {
 		s.cmd.Env = append(s.cmd.Env, "VERIF_CRASH_AT="+s.crash)
 	}
+	os.Remove(s.root + ".hooks")
+	s.cmd.Env = append(s.cmd.Env, "VERIF_HOOKLOG="+s.root+".hooks")
 	s.log = &bytes.Buffer{}
 	s.cmd.Stdout = s.log
 	s.cmd.Stderr = s.log
@@ -184,6 +231,8 @@ type pub struct {
 	pc     *webrtc.PeerConnection
 	tracks []*webrtc.TrackLocalStaticRTP
 	stop   chan struct{}
+	script [][]any       // scripted RTP (C06 end to end): ["p", seq, wait_ms] | ["n", subscriber, [seqs], wait_ms]
+	done   chan struct{} // closed when the script has run
 }
 
 type client struct {
@@ -195,6 +244,7 @@ type client struct {
 	gone   chan struct{} // closed when the reader has seen the end of the connection
 	pubs   map[string]*pub
 	subs   map[string]*webrtc.PeerConnection
+	ssrc   map[string]uint32 // stream id -> SSRC of the (first) track received on it
 	pmu    sync.Mutex
 	answer bool
 }
@@ -623,11 +673,134 @@ func newPC() (*webrtc.PeerConnection, error) {
 	if err := m.RegisterDefaultCodecs(); err != nil {
 		return nil, err
 	}
-	api := webrtc.NewAPI(webrtc.WithMediaEngine(m))
+	// no interceptors: the driver's peers send no NACKs or reports of their own
+	api := webrtc.NewAPI(webrtc.WithMediaEngine(m), webrtc.WithInterceptorRegistry(&interceptor.Registry{}))
 	return api.NewPeerConnection(webrtc.Configuration{})
 }
 
+// what the server child logged at its NACK hooks since the last call
+func (d *driver) hooklog() {
+	p := d.srv.root + ".hooks"
+	b, err := os.ReadFile(p)
+	if err != nil {
+		return
+	}
+	os.Truncate(p, 0)
+	for _, line := range strings.Split(string(b), "\n") {
+		var m map[string]any
+		if line != "" && json.Unmarshal([]byte(line), &m) == nil {
+			m["ev"] = "srvnack"
+			d.emit(m)
+		}
+	}
+}
+
+// scripted RTP on the single video track of a publication, with every NACK the server sends upstream logged
+func (d *driver) runScript(c *client, id string, p *pub) {
+	defer close(p.done)
+	for i := 0; i < 500 && p.pc.ConnectionState() != webrtc.PeerConnectionStateConnected; i++ {
+		time.Sleep(10 * time.Millisecond)
+	}
+	if p.pc.ConnectionState() != webrtc.PeerConnectionStateConnected || len(p.tracks) == 0 {
+		d.emit(map[string]any{"ev": "rtpdone", "c": c.name, "id": id, "sent": [][]int{}, "connected": 0})
+		return
+	}
+	start := time.Now()
+	ms := func() int { return int(time.Since(start) / time.Millisecond) }
+	var mu sync.Mutex
+	sentAt := map[uint16]int{}
+	maxSent := -1
+	for _, snd := range p.pc.GetSenders() {
+		go func(snd *webrtc.RTPSender) {
+			for {
+				pkts, _, err := snd.ReadRTCP()
+				if err != nil {
+					return
+				}
+				for _, pk := range pkts {
+					if n, ok := pk.(*rtcp.TransportLayerNack); ok {
+						now := ms()
+						seqs := [][]int{}
+						mu.Lock()
+						for _, np := range n.Nacks {
+							for _, sq := range np.PacketList() {
+								at, ok := sentAt[sq]
+								age := -1
+								if ok {
+									age = now - at
+								}
+								seqs = append(seqs, []int{int(sq), age, maxSent})
+							}
+						}
+						mu.Unlock()
+						d.emit(map[string]any{"ev": "upnack", "c": c.name, "id": id, "t": now, "seqs": seqs})
+					}
+				}
+			}
+		}(snd)
+	}
+	sent := [][]int{}
+	n := 0
+	for _, it := range p.script {
+		select {
+		case <-p.stop:
+			return
+		default:
+		}
+		if len(it) < 3 {
+			continue
+		}
+		switch str(it[0]) {
+		case "p":
+			time.Sleep(time.Duration(num(it[2])) * time.Millisecond)
+			sq := uint16(num(it[1]))
+			n++
+			pl := []byte{0x10, 0x11, 0, 0, 1, 2, 3, 4, byte(n)}
+			if n == 1 {
+				pl = []byte{0x10, 0x10, 0, 0, 0x9d, 0x01, 0x2a, 0x80, 0x02, 0xe0, 0x01, 0, 0}
+			}
+			mu.Lock()
+			if _, dup := sentAt[sq]; !dup {
+				sentAt[sq] = ms()
+			}
+			if int(sq) > maxSent {
+				maxSent = int(sq)
+			}
+			mu.Unlock()
+			p.tracks[0].WriteRTP(&rtp.Packet{Header: rtp.Header{Version: 2, SequenceNumber: sq, Timestamp: uint32(n) * 3000, Marker: true}, Payload: pl})
+			sent = append(sent, []int{int(sq), ms()})
+		case "n":
+			if len(it) > 3 {
+				time.Sleep(time.Duration(num(it[3])) * time.Millisecond)
+			}
+			sc := d.clients[str(it[1])]
+			l, _ := it[2].([]any)
+			seqs := []uint16{}
+			for _, x := range l {
+				seqs = append(seqs, uint16(num(x)))
+			}
+			if sc != nil {
+				sc.pmu.Lock()
+				pc, ssrc := sc.subs[id], sc.ssrc[id]
+				sc.pmu.Unlock()
+				if pc != nil && ssrc != 0 {
+					pc.WriteRTCP([]rtcp.Packet{&rtcp.TransportLayerNack{SenderSSRC: 1, MediaSSRC: ssrc, Nacks: rtcp.NackPairsFromSequenceNumbers(seqs)}})
+					d.emit(map[string]any{"ev": "subnack", "c": sc.name, "id": id, "t": ms(), "seqs": seqs})
+				} else {
+					d.emit(map[string]any{"ev": "subnack-skipped", "c": str(it[1]), "id": id})
+				}
+			}
+		}
+	}
+	time.Sleep(400 * time.Millisecond) // let the last NACKs come in
+	d.emit(map[string]any{"ev": "rtpdone", "c": c.name, "id": id, "sent": sent, "connected": 1})
+}
+
 func (d *driver) publish(c *client, id, label string, naudio, nvideo int, replace string) {
+	d.publishScript(c, id, label, naudio, nvideo, replace, nil)
+}
+
+func (d *driver) publishScript(c *client, id, label string, naudio, nvideo int, replace string, script [][]any) {
 	pc, err := newPC()
 	if err != nil {
 		d.emit(map[string]any{"ev": "puberr", "c": c.name, "err": err.Error()})
@@ -668,6 +841,13 @@ func (d *driver) publish(c *client, id, label string, naudio, nvideo int, replac
 	c.pmu.Lock()
 	c.pubs[id] = p
 	c.pmu.Unlock()
+	if script != nil {
+		p.script, p.done = script, make(chan struct{})
+		go d.runScript(c, id, p)
+		m := map[string]any{"type": "offer", "id": id, "label": label, "source": c.name, "sdp": pc.LocalDescription().SDP}
+		d.send(c, m, true)
+		return
+	}
 	// RTP on every track, tracks started one after the other so that the order in which the
 	// server sees them is the order in which they were added
 	go func() {
@@ -746,6 +926,22 @@ func (d *driver) gotOffer(c *client, m map[string]any) {
 		pc.OnICECandidate(func(cand *webrtc.ICECandidate) {
 			if cand != nil {
 				d.send(c, map[string]any{"type": "ice", "id": id, "candidate": cand.ToJSON()}, false)
+			}
+		})
+		pc.OnTrack(func(tr *webrtc.TrackRemote, _ *webrtc.RTPReceiver) {
+			c.pmu.Lock()
+			if c.ssrc == nil {
+				c.ssrc = map[string]uint32{}
+			}
+			if _, ok := c.ssrc[id]; !ok {
+				c.ssrc[id] = uint32(tr.SSRC())
+			}
+			c.pmu.Unlock()
+			buf := make([]byte, 1600)
+			for {
+				if _, _, err := tr.Read(buf); err != nil {
+					return
+				}
 			}
 		})
 		c.pmu.Lock()
@@ -1246,6 +1442,34 @@ func (d *driver) runBeh(b beh, idx int) {
 					rep = str(st[6])
 				}
 				d.publish(c, str(st[2]), str(st[3]), num(st[4]), num(st[5]), rep)
+			}
+		case "rtpscript":
+			// ["rtpscript", client, id, label, script]: one video track whose packets follow the script
+			if c := d.clients[str(st[1])]; c != nil {
+				sc := [][]any{}
+				if l, ok := st[4].([]any); ok {
+					for _, x := range l {
+						if a, ok := x.([]any); ok {
+							sc = append(sc, a)
+						}
+					}
+				}
+				d.publishScript(c, str(st[2]), str(st[3]), 0, 1, "", sc)
+			}
+		case "hooklog":
+			d.hooklog()
+		case "rtpwait":
+			if c := d.clients[str(st[1])]; c != nil {
+				c.pmu.Lock()
+				p := c.pubs[str(st[2])]
+				c.pmu.Unlock()
+				if p != nil && p.done != nil {
+					select {
+					case <-p.done:
+					case <-time.After(time.Duration(num(st[3])) * time.Millisecond):
+						d.emit(map[string]any{"ev": "rtptimeout", "c": c.name, "id": str(st[2])})
+					}
+				}
 			}
 		case "unpublish":
 			if c := d.clients[str(st[1])]; c != nil {
